@@ -126,6 +126,17 @@ pub fn suite_seg_pairs(cfg: &Cfg, rep: &mut Report) {
 pub fn domains(rng: &mut Rng, h: u64) -> (i64, i64) {
     // one history in 13: a 64-bit domain wider than 2^32 points (coordinate type i64)
     if h % 13 == 7 {
+        // a quarter of those: more points than i64::MAX (up to the whole 64-bit range)
+        if rng.chance(1, 4) {
+            let r = rng.range(0, 1 << 40);
+            return match rng.below(5) {
+                0 => (i64::MIN, i64::MAX),
+                1 => (i64::MIN, rng.range(0, i64::MAX - 1)),
+                2 => (rng.range(i64::MIN + 1, -2), i64::MAX),
+                3 => (-(1i64 << 62) - r, (1i64 << 62) + r + 2),
+                _ => (i64::MIN + r, i64::MAX - rng.range(0, 1 << 20)),
+            };
+        }
         let k = rng.range(33, 62);
         let len = (1i64 << k) + rng.range(-3, 3);
         let lo = match rng.below(4) {
@@ -178,7 +189,9 @@ pub fn gen_history(rng: &mut Rng, h: u64, len: usize) -> ((i64, i64), Vec<SOp>) 
             lo = i32::MIN as i64;
         }
     }
-    let span = hi - lo;
+    // offsets are computed in 128 bits: a 64-bit domain may hold more than i64::MAX points
+    let span: u128 = (hi as i128 - lo as i128) as u128;
+    let at = move |off: u128| -> i64 { (lo as i128 + off.min(span) as i128) as i64 };
     let mut ops = Vec::with_capacity(len);
     // extreme clocks in two of seven histories
     let t_base: i32 = match h % 7 {
@@ -189,10 +202,10 @@ pub fn gen_history(rng: &mut Rng, h: u64, len: usize) -> ((i64, i64), Vec<SOp>) 
     let mut t: i32 = t_base + rng.range(-2, 3) as i32;
     let short_lived = h % 3 == 0;
     // bucket edges of the expected layout make good coordinates
-    let shift = expected_shift((span as u128) + 1);
+    let shift = expected_shift(span + 1);
     let coord = |rng: &mut Rng| -> i64 {
         match rng.below(4) {
-            0 => lo + rng.range(0, span),
+            0 => at((((rng.next() as u128) << 64) | rng.next() as u128) % (span + 1)),
             1 => {
                 let b = rng.range(0, 31);
                 let x = lo as i128 + ((b as i128) << shift) + rng.range(-1, 1) as i128;
@@ -205,7 +218,7 @@ pub fn gen_history(rng: &mut Rng, h: u64, len: usize) -> ((i64, i64), Vec<SOp>) 
                     hi
                 }
             }
-            _ => lo + rng.range(0, span.min(64)),
+            _ => at(rng.range(0, 64) as u128),
         }
     };
     let range = |rng: &mut Rng| -> (i64, i64) {
@@ -268,6 +281,7 @@ fn run_history_t<R: Coord>(dom: (i64, i64), ops: &[SOp], mon: &SMon, rep: &mut R
 where
     i64: From<R>,
 {
+    ctx::set(hist, 0); // a crash inside the constructor belongs to this history too
     let mut ex = match SegExec::<R>::new(dom.0, dom.1) {
         Some(e) => e,
         None => return Err((Fail::new("new:refused", format!("SegExpTree::new refused the domain [{},{}]", dom.0, dom.1)), 0, format!("coord={} lo={} hi={}", R::NAME, dom.0, dom.1))),
@@ -301,6 +315,9 @@ pub fn suite_seg_random(cfg: &Cfg, rep: &mut Report) {
         }
         if dom.0 < i32::MIN as i64 || dom.1 > i32::MAX as i64 {
             rep.counters.inc("histories_on_64bit_domains_wider_than_2pow32");
+            if (dom.1 as i128 - dom.0 as i128) >= i64::MAX as i128 {
+                rep.counters.inc("histories_on_domains_with_more_points_than_i64_max");
+            }
         }
         if rep.samples.is_empty() {
             rep.sample(J::obj(vec![
@@ -322,6 +339,9 @@ pub fn suite_seg_random(cfg: &Cfg, rep: &mut Report) {
 
 // ---------------------------------------------------------------------------------------------
 // C14: domains and bucket mapping
+
+/// Miri runs a thinned set of bucket edges per domain (`--edge_step`)
+static EDGE_STEP: std::sync::atomic::AtomicU32 = std::sync::atomic::AtomicU32::new(1);
 
 fn check_domain<R: Coord>(rep: &mut Report, lo: i64, hi: i64, hist: u64) -> Result<(), (Fail, Vec<SOp>)>
 where
@@ -347,7 +367,8 @@ where
             // coordinates: lo, hi, both sides of every expected bucket edge
             let mut xs: Vec<i64> = vec![lo, hi];
             let w = 1i128 << ex.shift;
-            for j in 1..32i128 {
+            let edge_step = EDGE_STEP.load(std::sync::atomic::Ordering::Relaxed).max(1) as i128;
+            for j in (1..32i128).filter(|j| j % edge_step == 0) {
                 let e = lo as i128 + j * w;
                 for x in [e - 1, e] {
                     if x >= lo as i128 && x <= hi as i128 {
@@ -416,9 +437,10 @@ pub fn suite_seg_domains(cfg: &Cfg, rep: &mut Report) {
     let max_len = cfg.num("grid_len", 80);
     let max_lo = cfg.num("grid_lo", 70);
     // `parts` selects the sections of the grid (Miri runs a thinned grid): g = small i32 grid,
-    // s = i8/u8 corners, p = powers of two, w = 64-bit; kstep thins the exponents
-    let parts = cfg.str_or("parts", "gspw").to_string();
+    // s = i8/u8 corners, p = powers of two, w = 64-bit, x = 64-bit with more points than i64::MAX; kstep thins the exponents
+    let parts = cfg.str_or("parts", "gspwx").to_string();
     let kstep = cfg.num("kstep", 1).max(1) as u32;
+    EDGE_STEP.store(cfg.num("edge_step", 1).max(1) as u32, std::sync::atomic::Ordering::Relaxed);
     // grid: all (lo, len) with len 1..=max_len, lo in -max_lo..=max_lo, as i32 domains
     for len in (1..=max_len).filter(|_| parts.contains('g')) {
         for lo in -max_lo..=max_lo {
@@ -491,10 +513,30 @@ pub fn suite_seg_domains(cfg: &Cfg, rep: &mut Report) {
     if parts.contains('w') && mine(&mut n) {
         domain_case::<i64>(rep, 0, i64::MAX - 1, n);
     }
+    // 64-bit domains with more points than i64::MAX, up to the whole range of the coordinate type
+    // (2^63 - 1, 2^63, 2^63 + 1, ..., 2^64 - 1, 2^64 points)
+    if parts.contains('x') {
+        let mut wide: Vec<(i64, i64)> = vec![(i64::MIN, i64::MAX), (i64::MIN + 1, i64::MAX), (i64::MIN, i64::MAX - 1), (i64::MIN, -1), (i64::MIN, 0), (i64::MIN, 1), (-1, i64::MAX), (0, i64::MAX), (1, i64::MAX), (-2, i64::MAX)];
+        for k in [40u32, 61, 62] {
+            let r = 1i64 << k;
+            wide.push((-(1i64 << 62) - r, (1i64 << 62) + (r - 1)));
+            wide.push((i64::MIN + r, i64::MAX - r + 1));
+            wide.push((i64::MIN, r));
+            wide.push((-r, i64::MAX));
+        }
+        for (lo, hi) in wide {
+            if mine(&mut n) {
+                if (hi as i128 - lo as i128) >= i64::MAX as i128 {
+                    rep.counters.inc("domains_with_more_points_than_i64_max");
+                }
+                domain_case::<i64>(rep, lo, hi, n);
+            }
+        }
+    }
     rep.histories = rep.counters.get("domains_built") + rep.counters.get("domains_refused_as_required");
-    rep.exhaustive = Some(parts == "gspw" && kstep == 1);
+    rep.exhaustive = Some(parts == "gspwx" && kstep == 1 && cfg.num("edge_step", 1) <= 1);
     rep.sample(J::obj(vec![
-        ("grid", J::s(format!("all i32 domains with len 1..={} and lo -{}..={}; i8/u8 corners; 2^k-1,2^k,2^k+1 for k=4..32 at 5 origins in i16/u16/i32/u32; i64 up to 2^62+1", max_len, max_lo, max_lo))),
+        ("grid", J::s(format!("all i32 domains with len 1..={} and lo -{}..={}; i8/u8 corners; 2^k-1,2^k,2^k+1 for k=4..32 at 5 origins in i16/u16/i32/u32; i64 up to 2^62+1; 22 i64 domains of 2^63-1 .. 2^64 points", max_len, max_lo, max_lo))),
         ("per_domain", J::s("point insert at lo, hi, both sides of each of the 31 bucket edges (every coordinate when len <= 96): stored place must be 31 + ((x-lo) >> s); point queries; whole-domain query")),
     ]));
 }
